@@ -422,3 +422,82 @@ def pinned_key(key, fixed_flag):
 def is_dyadic(t, bits=12):
     x = t * (1 << bits)
     return x == int(x)
+
+
+# ------------------------------------------------------------ touching control boxes
+def _mono(kind, A, B, rng):
+    """a Line/Quadratic/Cubic from A to B whose control points lie in the box of
+    A and B, monotone in both coordinates (so the control-polygon box IS that
+    box); integer offsets, hence exactly representable"""
+    if kind == 'L':
+        return ('L', A, B)
+    dx, dy = B.real - A.real, B.imag - A.imag
+    def inner(f, g):
+        return complex(A.real + math.floor(abs(dx) * f) * (1 if dx >= 0 else -1),
+                       A.imag + math.floor(abs(dy) * g) * (1 if dy >= 0 else -1))
+    if kind == 'Q':
+        return ('Q', A, inner(rng.random(), rng.random()), B)
+    f1, f2 = sorted([rng.random(), rng.random()]); g1, g2 = sorted([rng.random(), rng.random()])
+    return ('C', A, inner(f1, g1), inner(f2, g2), B)
+
+
+def _arch(kind, x0, x1, c, h, rng):
+    """an arch from (x0,c) to (x1,c) whose control points are h above (h<0: below) the chord"""
+    if kind == 'Q':
+        return ('Q', complex(x0, c), complex((x0 + x1) // 2, c + h), complex(x1, c))
+    w = x1 - x0
+    return ('C', complex(x0, c), complex(x0 + w // 4, c + h), complex(x1 - w // 4, c + h), complex(x1, c))
+
+
+def box_touch_pair(rng, k1, k2):
+    """two Bezier segments (kinds in L/Q/C) whose control-polygon boxes TOUCH exactly
+    on an edge, with the contact point of the curves on that edge; integer
+    coordinates times a power of two.  Returns (d1, d2, meta) or None."""
+    s = rng.choice([1.0, 1.0, 0.25, 8.0, 64.0])
+    ri = rng.randint
+    px, py = ri(-40, 40), ri(-40, 40)
+    P = complex(px, py)
+    shapes = ['chain', 'chain-overlap', 'leave-axis']
+    if 'L' not in (k1, k2) or k1 != k2:
+        shapes.append('chord')
+    shape = rng.choice(shapes)
+    if shape == 'chord' and not (k1 == 'L' and k2 == 'L'):
+        x0 = px; x1 = px + 4 * ri(2, 12); h = ri(2, 30)
+        m = rng.choice([0, 0, ri(1, 9)])
+        if k1 == 'L':
+            d1 = ('L', complex(x0 - m, py), complex(x1 + m, py)); d2 = _arch(k2, x0, x1, py, h, rng)
+        elif k2 == 'L':
+            d1 = _arch(k1, x0, x1, py, h, rng); d2 = ('L', complex(x0 - m, py), complex(x1 + m, py))
+        else:
+            d1 = _arch(k1, x0, x1, py, h, rng); d2 = _arch(k2, x0, x1, py, -ri(2, 30), rng)
+        if rng.random() < 0.5:      # the same with x and y exchanged
+            d1 = (d1[0],) + tuple(complex(z.imag, z.real) for z in d1[1:])
+            d2 = (d2[0],) + tuple(complex(z.imag, z.real) for z in d2[1:])
+        contacts = 2
+    else:
+        a, b, c, d = ri(2, 40), ri(2, 40), ri(2, 40), ri(2, 40)
+        A = complex(px - a, py - b)
+        if shape == 'chain':
+            B = complex(px + c, py + d)                 # boxes meet in the corner P only
+        elif shape == 'chain-overlap':
+            B = complex(px + c, py - d)                 # x-ranges touch, y-ranges overlap
+        else:
+            B = complex(px, py + rng.choice([-1, 1]) * d)   # axis-parallel departure from P
+            if k2 != 'L':
+                B = complex(px + c, py - d)
+        d1 = _mono(k1, A, P, rng)
+        d2 = _mono(k2, P, B, rng)
+        if shape == 'leave-axis' and k2 == 'L':
+            d2 = ('L', P, B)
+        if rng.random() < 0.5:
+            d1 = (d1[0],) + tuple(reversed(d1[1:]))     # contact at t1 = 0 instead of 1
+        if rng.random() < 0.5:
+            d2 = (d2[0],) + tuple(reversed(d2[1:]))
+        if rng.random() < 0.5:
+            d1 = (d1[0],) + tuple(complex(z.imag, z.real) for z in d1[1:])
+            d2 = (d2[0],) + tuple(complex(z.imag, z.real) for z in d2[1:])
+        contacts = 1
+    d1 = (d1[0],) + tuple(z * s for z in d1[1:]); d2 = (d2[0],) + tuple(z * s for z in d2[1:])
+    if d1 == d2 or (d1[0] == 'L' and d1[1] == d1[2]) or (d2[0] == 'L' and d2[1] == d2[2]):
+        return None
+    return d1, d2, {'config': 'box-touch', 'shape': shape, 'contacts': contacts, 'scale': 40 * s}
